@@ -30,7 +30,12 @@ type mPeer struct {
 	addrs     map[int]*mEntry
 	rec       *mRec // the signed record that is currently retrievable, nil if none
 	recKey    string // identity of that record (which envelope was accepted last)
-	deadSince int64 // instant since which the peer has continuously had no live address (never: it never had one); meaningful only while len(addrs)==0
+	// deadSince: the first collector tick instant from which on the peer's remains are garbage; meaningful
+	// only while len(addrs)==0. Last address expired at e: e (a collector running at e removes it). Last
+	// address removed by a write at w: w+1 (a collector tick at w ran before the write). never: the peer
+	// never had a live address.
+	deadSince int64
+	lastWrite int64 // instant of the last write to this peer (for the in-memory white-box check)
 }
 
 type model struct {
@@ -41,7 +46,7 @@ type model struct {
 func newModel(now int64, npeers int) *model {
 	m := &model{now: now}
 	for i := 0; i < npeers; i++ {
-		m.peers = append(m.peers, &mPeer{addrs: map[int]*mEntry{}, deadSince: never})
+		m.peers = append(m.peers, &mPeer{addrs: map[int]*mEntry{}, deadSince: never, lastWrite: never})
 	}
 	return m
 }
@@ -49,7 +54,7 @@ func newModel(now int64, npeers int) *model {
 func (m *model) clone() *model {
 	c := &model{now: m.now}
 	for _, p := range m.peers {
-		q := &mPeer{addrs: map[int]*mEntry{}, deadSince: p.deadSince, recKey: p.recKey}
+		q := &mPeer{addrs: map[int]*mEntry{}, deadSince: p.deadSince, recKey: p.recKey, lastWrite: p.lastWrite}
 		for k, e := range p.addrs {
 			ce := *e
 			q.addrs[k] = &ce
@@ -97,10 +102,11 @@ func (m *model) settle() {
 
 // afterWrite is settle() for a peer that was just written at the current instant.
 func (m *model) afterWrite(p *mPeer, wasLive bool) {
+	p.lastWrite = m.now
 	if len(p.addrs) == 0 {
 		p.rec = nil
 		if wasLive {
-			p.deadSince = m.now
+			p.deadSince = m.now + 1
 		}
 	}
 }
